@@ -112,6 +112,18 @@ def sha256_full(data):
     return struct.pack(">8I", *h)
 
 
+def sha256_from_midstate(mid32, count, tail):
+    """digest of a message whose first `count` bytes (a multiple of 64) were already
+    absorbed, leaving the chaining value mid32, and which goes on with `tail`"""
+    assert count % 64 == 0
+    h = list(struct.unpack(">8I", mid32))
+    n = len(tail)
+    p = tail + b"\x80" + b"\x00" * ((55 - n) % 64) + struct.pack(">Q", (8 * (count + n)) % 2**64)
+    for off in range(0, len(p), 64):
+        h = sha256_compress(h, p[off:off + 64])
+    return struct.pack(">8I", *h)
+
+
 def selfcheck():
     assert keccak256(b"").hex() == \
         "c5d2460186f7233c927e7db2dcc703c0e500b653ca82273b7bfad8045d85a470"
@@ -120,6 +132,8 @@ def selfcheck():
     assert keccak256(bytes(range(200)) * 3) is not None
     for m in (b"", b"abc", bytes(range(256)) * 3, b"x" * 55, b"y" * 56, b"z" * 64):
         assert sha256_full(m) == hashlib.sha256(m).digest()
+    m = bytes(range(256)) * 3
+    assert sha256_from_midstate(sha256_midstate(m[:128]), 128, m[128:]) == hashlib.sha256(m).digest()
     return True
 
 
